@@ -150,8 +150,24 @@ def run_driver(driver_rel, requests, timeout=1800):
     Lines not starting with 'R ' (elaborator chatter) are ignored.
     """
     data = "\n".join(json.dumps(r, separators=(",", ":")) for r in requests) + "\n"
-    p = subprocess.run(["lake", "env", "lean", "--run", driver_rel], cwd=paths.LEAN, env=_env(),
-                       input=data, stdout=subprocess.PIPE, stderr=subprocess.PIPE, text=True, timeout=timeout)
+    import signal
+    proc = subprocess.Popen(["lake", "env", "lean", "--run", driver_rel], cwd=paths.LEAN, env=_env(),
+                            stdin=subprocess.PIPE, stdout=subprocess.PIPE, stderr=subprocess.PIPE, text=True,
+                            start_new_session=True)
+    try:
+        out, err = proc.communicate(data, timeout=timeout)
+    except subprocess.TimeoutExpired:
+        try:
+            os.killpg(proc.pid, signal.SIGKILL)   # lake spawns lean: kill the whole group
+        except OSError:
+            pass
+        proc.wait()
+        raise RuntimeError("driver %s timed out after %s s" % (driver_rel, timeout))
+
+    class _P:
+        pass
+    p = _P()
+    p.stdout, p.stderr, p.returncode = out, err, proc.returncode
     answers = []
     for line in p.stdout.split("\n"):
         if line.startswith("R "):
